@@ -307,7 +307,7 @@ def case_nest2(case):
             for k, (a, b) in a_k & Bt.getRoot():
                 pass
     f = feats_cells(r0, r1, bc)
-    if not present(r0) and stored(r0) or r0 is not None and not stored(r0):
+    if r0 is not None and not present(r0):
         f.add("leading_empty_row")
     base = run_all("nest2", nest, regs, f, out)
     if base is None:
